@@ -9,7 +9,7 @@ from pwv.props.c12 import LAYOUTS, canon, is_placeholder
 
 ID = 'C06'
 RULE = ('Hypothesis draws (direction forward/inverse, filter pair, J in 1..3, H,W in 2..14 incl. odd / non-multiple-of-4, '
-        '(o_dim, ri_dim) from all 132 integer pairs, skip_hps mask and include_scale mask (forward), absence mask and the '
+        '(o_dim, ri_dim) from all 132 integer pairs, skip_hps mask and include_scale mask in a generated container - list / tuple / bool ndarray / list of 0-1 integers - (forward), absence mask and the '
         'subset of {lowpass, level 1..J} that requires grad (inverse), cotangent recipes; for a quarter of the cases the filters of the module are overwritten in place between the forward pass and a pull-back through the recorded graph, which must be refused or unchanged). Oracle: the matrix J_f of the '
         'function computed by the forward pass, extracted from basis inputs under no_grad; torch.autograd.grad with basis '
         'cotangents (batch-slot trick: K copies of the input in the batch axis, cotangent k in slot k) must give J_f^T, for '
@@ -55,6 +55,7 @@ def _case(draw, unit):
     if direction == 'forward':
         case['skip'] = mask()
         case['scales'] = mask()
+        case['mask_container'] = draw(st.sampled_from(dtu.MASK_CONTAINERS))
         case['zero_input'] = draw(st.integers(0, 5)) == 0
     else:
         ab = mask(3)
@@ -129,11 +130,14 @@ def _forward(case, r, nondefault):
     J = case['J']
     H, W = case['size']
     skip, scl = case['skip'], case['scales']
-    r.label('some_skipped' if any(skip) else None, 'some_scales' if any(scl) else None)
+    r.label('some_skipped' if any(skip) else None, 'some_scales' if any(scl) else None,
+            'masks_as_' + case.get('mask_container', 'list'))
     r.nontrivial = nondefault or any(skip) or any(scl) or J >= 2
     def mk(q_):
         return DTCWTForward(biort=case['biort'], qshift=q_, J=J, o_dim=case['o_dim'], ri_dim=case['ri_dim'],
-                            skip_hps=skip, include_scale=scl, mode=case.get('mode', 'symmetric'))
+                            skip_hps=dtu.boxed_mask(list(skip), case.get('mask_container', 'list')),
+                            include_scale=dtu.boxed_mask(list(scl), case.get('mask_container', 'list')),
+                            mode=case.get('mode', 'symmetric'))
     twin = {'qshift_06': 'qshift_a', 'qshift_a': 'qshift_06'}.get(case['qshift'])
     if case.get('reused') and twin:
         r.label('reused_module')
